@@ -135,6 +135,7 @@ class TrajectoryParser:
                 name=function_name,
                 signature=fluent_signature,
                 repeating_variables=repeating_items,
+                arguments=fluent_signature_items,
             )
 
         possible_objects = {**self.problem.objects, **self.partial_domain.constants}
@@ -152,6 +153,7 @@ class TrajectoryParser:
             name=function_name,
             signature=fluent_signature,
             repeating_variables=repeating_items,
+            arguments=fluent_signature_items,
         )
 
     def parse_grounded_predicate(
